@@ -101,7 +101,11 @@ def _tzapi(ctx, R, only_modules):
                     if call is not None and has_tz_arg(call, TZ_FUNCS[en]):
                         R.ok("C18.TZAPI", "%s|%s" % (qual, en), wh, "explicit tz argument")
                     else:
-                        R.bad("C18.TZAPI", "%s|%s" % (qual, en), wh, "time-zone-sensitive standard-library entry point %s: `%s`" % (en, ntext(call or n)))
+                        kk = "%s|%s" % (qual, en)
+                        par = getattr(call, "_parent", None) if call is not None else None
+                        if en == "datetime.date.today" and isinstance(par, ast.Call) and ntext(par.func).endswith("combine") and par.args and par.args[0] is call:
+                            kk = "%s|datetime.date.today as the date of datetime.combine(<date>, <time>)" % mod.name
+                        R.bad("C18.TZAPI", kk, wh, "time-zone-sensitive standard-library entry point %s: `%s`" % (en, ntext(call or n)))
                     continue
                 if en is not None:
                     if call is not None:
